@@ -200,7 +200,7 @@ Definition cond_only (n : node) (tok : token) (a : attr) (cmd : str) : Prop :=
   n_tok n = Some tok /\ t_kind tok = KTag /\ In a (t_attrs tok) /\ a_name a = m_attr_prefix mgr ++ cmd /\
   is_cond_name cmd = true /\ a_value a <> None /\
   (forall b, In b (t_attrs tok) -> prefixb (m_attr_prefix mgr) (a_name b) = true -> b = a) /\
-  str_eqb (map to_lower (t_name tok)) (m_tag_prefix mgr ++ d_block) = false.
+  str_eqb (block_key to_lower (t_name tok)) (m_tag_prefix mgr ++ d_block) = false.
 
 Definition set_tagbuf (ls : lstate) (tb : str) : lstate :=
   mkL (l_sc ls) (l_np ls) (l_child ls) tb (l_content ls) (l_direct ls) (l_replace ls).
@@ -274,7 +274,7 @@ Qed.
 
 Lemma init_lstate_cond : forall tok a cmd sc,
   In a (t_attrs tok) -> a_name a = m_attr_prefix mgr ++ cmd -> is_cond_name cmd = true ->
-  str_eqb (map to_lower (t_name tok)) (m_tag_prefix mgr ++ d_block) = false ->
+  str_eqb (block_key to_lower (t_name tok)) (m_tag_prefix mgr ++ d_block) = false ->
   l_np (ilstate 0 tok sc) = true /\ l_child (ilstate 0 tok sc) = CNop /\
   l_direct (ilstate 0 tok sc) = [] /\ l_sc (ilstate 0 tok sc) = sc.
 Proof.
